@@ -19,6 +19,8 @@ RULE = ("exact-regime meshes 1-4 d with 0-3 existing (overlapping/touching) subr
         "is_aligned on pairs with whole-cell / fractional offsets and equal / unequal cells; (sel) plane and range selections at "
         "interior coordinates, on subregion faces and region boundary: kept set and clipped extents computed independently in exact "
         "arithmetic; (name) mesh[name]; (history) transformation histories from C13's generator with SubInv after every step; "
+        "(nm) the setter at nanometre scale (x 2^-30, exact) with boxes 1e-3..1e-4 of a cell off the lattice / too short / too long and candidates carrying their own tolerance factors: accept/reject vs model (the alignment test lets them through there, the other tests decide); "
+        "(session) store sessions shared with C13; "
         "(persist) JSON side-car (file tree vs model saveSubs; load into the same / renamed / shifted mesh vs model loadSubs) and HDF5 reload; (scale) the same setter cases at length scales 1e6 and 1e-12 (known finding D18). "
         "non-trivial = at least one subregion or candidate that is not the whole region")
 TRUSTED = ["harness/c14.py, harness/tcommon.py + driver JSON glue",
@@ -26,7 +28,10 @@ TRUSTED = ["harness/c14.py, harness/tcommon.py + driver JSON glue",
            "h5py persistence is observed, not modelled"]
 ASSUMPTIONS = ["dyadic corners and cells: alignment remainders are exact in binary64 at moderate scales"]
 UNPROVED = ["HDF5: the C14 side is proved on C10's model of io/hdf5.py (hdf5_loaded_same_values / hdf5_loaded_subInv: the mesh the reader returns has the same values and SubInv; hdf5_load_through_setter / hdf5_load_passed_subOk: whatever the file holds went through the setter); that meshLoad(meshSave m) IS that mesh is C10's theorem mesh_roundtrip (not re-proved here), and h5py/libhdf5 byte encoding is trusted",
-            "SubInv is the exact-arithmetic (tolerance 0) reading; what the tolerant setter accepts beyond it is characterised per axis only (aligned_tol_sound / isAligned_sound), and is_aligned's absolute 1e-12 tolerance is known finding D18",
+            "SubInv is the exact-arithmetic (tolerance 0) reading. The three tolerant tests are now characterised as the code evaluates them, each as an IFF in exact rationals: inside_iff_tolerance (absolute+relative tolerance of the REGION), divisible_tol_iff (min(cell)/1000), aligned_tol_iff (absolute 1e-12), with the scale laws (is_aligned_scale_law: scaling by s = tolerance t/s; the whole-cell test is invariant; exact_fit_accepted_at_every_scale) and D18 as two iffs (d18_aligned_rejected_iff, d18_half_cell_accepted_iff). Not proved: ONE iff for the whole setter in terms of corner errors (the three tests interact through the counts n = round(edge/cell) of the candidate's own mesh), and nothing about binary64 rounding itself",
+            "the setter's verdict is independent of the candidate's names, units AND own tolerance_factor (setter_ignores_candidate_metadata, setter_ignores_candidate_tol): since repo fix 5591fed0 (finding D132) the three tests are made on the candidate re-created with the mesh region's metadata (model: candOk), and what is stored passes the three tests as stored (set_accepts, hdf5_load_through_setter); candidate_tolerance_decides_witness keeps the pre-fix behaviour as a statement about the three tests on a region AS GIVEN (mesh [0, 0.002] n=2, candidate [0, 0.001-1e-13]: refused with tolerance_factor 1e-12, passed with 1e-3; candOk refuses both). Not proved: anything about candidates that are not Region objects or have another ndim beyond 'refused'",
+            "in-place == copy without SubInv: copy_accepted_iff_inplace_passes (the copying form is accepted iff the in-place result passes the bc check and the three tests); which results FAIL in binary64 is D18 territory (observed: nm-far / farsel / history streams)",
+            "store model (shared with C13): region and subregion objects of a mesh are always its own copies (subregions_are_own_copies, DFV.C13.exclusive_ownership_after_any_session - since repo fix 12c808de also the region object, so a second mesh built on the same Region object can no longer break the first one's SubInv); SubInv after in-place histories in the store (subInv_after_inplace_history_in_store) needs a good store with exclusive region objects, which every session reaches; SubInv over whole sessions with setter / constructor statements is not stated as one theorem (per statement: constructor_and_setter_in_store + set_accepts_exact), and a caller who moves mesh.region or mesh.subregions[name] directly can still break SubInv of that mesh",
             "selection theorems are stated for meshes satisfying SubInv; plane/range selections of meshes holding tolerance-accepted but inexact subregions are covered by the correspondence run only"]
 BUDGET = {"quick": 90, "thorough": 900}
 
@@ -48,8 +53,9 @@ def gen_candidate(rng, ms, tag):
     ax = rng.randrange(len(n))
     if tag == "region":
         p1, p2 = list(pmin), list(pmax)
-    elif tag in ("half", "quarter", "milli", "micro"):
-        d = {"half": Fraction(1, 2), "quarter": Fraction(1, 4), "milli": Fraction(1, 1024), "micro": Fraction(1, 2**20)}[tag] * cell[ax]
+    elif tag in ("half", "quarter", "milli", "micro", "near3", "near4"):
+        d = {"half": Fraction(1, 2), "quarter": Fraction(1, 4), "milli": Fraction(1, 1024), "micro": Fraction(1, 2**20),
+             "near3": Fraction(1, 2**11), "near4": Fraction(1, 2**13)}[tag] * cell[ax]
         if hi[ax] == n[ax]:  # keep it inside: shift down
             d = -d
             if lo[ax] == 0:
@@ -58,6 +64,13 @@ def gen_candidate(rng, ms, tag):
         p2[ax] += d
         if p1[ax] < pmin[ax] or p2[ax] > pmax[ax] or p1[ax] >= p2[ax]:
             return None
+    elif tag in ("short3", "short4", "long3"):
+        # a box 0.05 % / 0.012 % shorter (longer) than a whole number of cells: where a candidate's own loose tolerance factor
+        # used to decide (finding D132, repo fix 5591fed0: the tests are now made with the mesh region's tolerance)
+        d = {"short3": -Fraction(1, 2**11), "short4": -Fraction(1, 2**13), "long3": Fraction(1, 2**11)}[tag] * cell[ax]
+        if tag == "long3" and hi[ax] == n[ax]:
+            d = -d
+        p2[ax] += d
     elif tag == "fractional":
         p2[ax] -= cell[ax] / 2
         if p2[ax] <= p1[ax]:
@@ -69,7 +82,7 @@ def gen_candidate(rng, ms, tag):
         p1[ax] = pmax[ax] + 2 * cell[ax]
         p2[ax] = p1[ax] + w
     return dict(tag=tag, p1=[float(x) for x in p1], p2=[float(x) for x in p2],
-                ctol=rng.choice([None, None, 1e-3, 0.3, 0.5, 5.0, 0.0]))
+                ctol=rng.choice([None, None, 1e-3, 1e-2, 0.3, 0.5, 5.0, 0.0]))
 
 
 def scaled_spec(ms, s):
@@ -119,7 +132,8 @@ def cases(rng, tier):
     for _ in range(60 * N):
         ms = fieldio.gen_mesh_spec(rng, max_cells=80, nmax=6)
         subs = tc.gen_subs(rng, ms, rng.randint(0, 3))
-        tags = [rng.choice(["aligned", "aligned", "aligned", "region", "half", "quarter", "milli", "micro", "fractional", "oversized", "outside"])
+        tags = [rng.choice(["aligned", "aligned", "aligned", "region", "half", "quarter", "milli", "micro", "fractional", "oversized", "outside",
+                            "near3", "near4", "short3", "short4", "long3"])
                 for _ in range(rng.randint(1, 3))]
         cand = [c for c in (gen_candidate(rng, ms, t) for t in tags) if c]
         if cand:
@@ -188,6 +202,11 @@ def cases(rng, tier):
         if not spec.get("subs"):
             spec["subs"] = tc.gen_subs(rng, spec["mesh"], 2)
         yield dict(kind="history", obj=spec, ops=[tc.gen_op(rng, spec, far=False, rot_ref_small=True) for _ in range(rng.randint(1, 6))])
+    # store sessions (round 3, shared with C13): the same Region objects as candidates of several meshes / under two names /
+    # a mesh's own region and subregions as candidates, re-assignments after in-place moves: the mesh holds COPIES, SubInv
+    # holds for every mesh after every statement, and the store model names the same objects as `is` does
+    for k in range(20 * N):
+        yield dict(kind="session", session=tc.gen_session(rng, undisciplined=(k % 10 == 9)))
     for _ in range(12 * N):
         ms = fieldio.gen_mesh_spec(rng, ndim=rng.choice([1, 2, 3, 3, 4]), max_cells=60, nmax=5)
         yield dict(kind="persist", mesh=ms, subs=tc.gen_subs(rng, ms, rng.randint(1, 3)), fmt=rng.choice(["json", "h5"]),
@@ -197,6 +216,18 @@ def cases(rng, tier):
         spec = dict(kind="mesh", mesh=ms)
         yield dict(kind="shared", mesh=ms, subs=tc.gen_subs(rng, ms, rng.randint(1, 3)),
                    ops=[dict(tc.gen_op(rng, spec, allow_bad=False, far=False, rot_ref_small=True), inplace=True) for _ in range(rng.randint(1, 3))])
+    # nanometre cells (every length x 2^-30, exact in binary64): the ABSOLUTE 1e-12 of is_aligned is about a thousandth of a
+    # cell here, so boxes 1e-3 .. 1e-4 of a cell off the lattice pass the alignment test and the OTHER tests decide - among
+    # them 'the cell must not exceed the candidate', which before repo fix 5591fed0 ran with the candidate's own tolerance
+    # factor (ctol).  Compared with the model (exact rationals of the same binary64 numbers); the oracle does not judge
+    # tolerance decisions.
+    for _ in range(12 * N):
+        ms = fieldio.gen_mesh_spec(rng, ndim=rng.choice([1, 2, 3]), max_cells=80, nmax=6)
+        ms["intcorners"] = False
+        tags = [rng.choice(["aligned", "near3", "near4", "short3", "short4", "long3", "milli"]) for _ in range(rng.randint(1, 2))]
+        cand = [c for c in (gen_candidate(rng, ms, t) for t in tags) if c]
+        if cand:
+            yield dict(kind="setter", mesh=ms, subs=[], cand=cand, scale=2.0 ** -30, exactscale=True)
     # known finding D18: the same setter at extreme length scales
     for s in (1e6, 2.0 ** 21, 1e-12, 2.0 ** -41):
         for _ in range(3):
@@ -284,6 +315,11 @@ def run_impl(case):
         return o
     if kind == "farsel":
         return run_farsel(case, obs, fail)
+    if kind == "session":
+        from . import c13
+        o = c13.run_session_case(dict(session=case["session"]))
+        o["tags"] = obs["tags"] + o["tags"]
+        return o
     m = build(case)
     obs["mesh"] = fieldio.mesh_json(m)
     tc.check_subinv(m, fail, "initial mesh")
@@ -305,7 +341,8 @@ def run_impl(case):
             st = "err"
         obs["st"] = st
         good = all(t in ("aligned", "region") for t in tags)
-        clearly_bad = any(t in ("half", "quarter", "milli", "micro", "fractional", "oversized", "outside") for t in tags)
+        clearly_bad = any(t in ("half", "quarter", "milli", "micro", "fractional", "oversized", "outside") for t in tags) or \
+            (s == 1.0 and any(t in ("near3", "near4", "short3", "short4", "long3") for t in tags))
         if st == "err":
             if not same_state(tc.snap(m), before, rel=0):
                 fail("rejected assignment changed the subregions")
@@ -460,6 +497,9 @@ def model_requests(case, obs):
     if k == "history":
         from . import c13
         return c13.model_requests(dict(obj=case["obj"], ops=case["ops"]), obs)
+    if k == "session":
+        from . import c13
+        return c13.model_requests(dict(session=case["session"]), obs)
     if "mesh" not in obs:
         return []
     if k == "setter":
@@ -486,10 +526,13 @@ def compare(case, obs, rs):
     if k == "history":
         from . import c13
         return c13.compare(dict(obj=case["obj"], ops=case["ops"]), obs, rs)
+    if k == "session":
+        from . import c13
+        return c13.compare(dict(session=case["session"]), obs, rs)
     if not rs:
         return dis
     if k == "setter":
-        if case.get("scale", 1.0) != 1.0:
+        if case.get("scale", 1.0) != 1.0 and not case.get("exactscale"):
             return dis  # extreme scales: absolute-tolerance behaviour, oracle only (D18)
         if (obs["st"] == "ok") != ("ok" in rs[0]):
             dis.append(f"subregions setter {[c['tag'] for c in case['cand']]}: impl {obs['st']} vs model {'ok' if 'ok' in rs[0] else rs[0]}")
@@ -528,6 +571,8 @@ def nontrivial(case, obs):
 
 def known(case, text):
     if case.get("kind") == "setter" and case.get("scale", 1.0) != 1.0:
+        if case.get("exactscale") and (text.startswith("subregions setter") or text.startswith("mesh after assignment")):
+            return None   # model and code disagree on exactly representable input: never excused
         return "D18"  # absolute 1e-12 tolerance at extreme length scales: aligned boxes rejected / misaligned accepted
     return None
 
